@@ -370,12 +370,23 @@ pub fn list_cases(thorough: bool) -> Vec<Vec<u8>> {
                 }
             }
         }
+        // one TLV of every value length 0..=1100 (carries around multiples of 256), followed by a small one
+        if a.family() == 1 {
+            for l in 0usize..=1100 {
+                cases.push(encode(1, 1, &a, &[TlvSpec { mode: 0, kind: 4, len: l, explicit: None }, TlvSpec { mode: 0, kind: 3, len: 7, explicit: None }]));
+            }
+        }
         // every raw type byte, alone and after a named item
         for k in 0..=255u8 {
             for l in [0usize, 1, 300] {
                 cases.push(encode(1, 1, &a, &[TlvSpec { mode: 1, kind: k, len: l, explicit: None }]));
             }
             cases.push(encode(0, 2, &a, &[TlvSpec { mode: 0, kind: k % 12, len: 2, explicit: None }, TlvSpec { mode: 1, kind: k, len: 1, explicit: None }]));
+        }
+        // a mid-size value followed by small ones (the buffer's allocation doubles past the limit before its contents do)
+        for sizes in [&[40000usize, 10, 10][..], &[33000, 1, 1, 1], &[20000, 20000, 20000, 5], &[1000; 60]] {
+            let tl: Vec<TlvSpec> = sizes.iter().enumerate().map(|(i, l)| TlvSpec { mode: 0, kind: (i % 12) as u8, len: *l, explicit: None }).collect();
+            cases.push(encode(1, 1, &a, &tl));
         }
         // totals of exactly 65533, 65534 and 65535 payload bytes
         let size = a.block().len();
